@@ -10,18 +10,29 @@ import (
 	"fmt"
 	"os"
 
-	"verifharness/c17"
 	"verifharness/hx"
+
+	_ "verifharness/c01"
+	_ "verifharness/c02"
+	_ "verifharness/c03"
+	_ "verifharness/c04"
+	_ "verifharness/c05"
+	_ "verifharness/c06"
+	_ "verifharness/c07"
+	_ "verifharness/c08"
+	_ "verifharness/c09"
+	_ "verifharness/c10"
+	_ "verifharness/c11"
+	_ "verifharness/c12"
+	_ "verifharness/c13"
+	_ "verifharness/c14"
+	_ "verifharness/c15"
+	_ "verifharness/c16"
+	_ "verifharness/c17"
+	_ "verifharness/c18"
+	_ "verifharness/c19"
+	_ "verifharness/c20"
 )
-
-type propRunner struct {
-	run    func(*hx.Ctx)
-	replay func(*hx.Ctx, map[string]interface{})
-}
-
-var registry = map[string]propRunner{
-	"C17": {c17.Run, c17.Replay},
-}
 
 func main() {
 	if len(os.Args) < 3 {
@@ -35,7 +46,7 @@ func main() {
 	out := fs.String("out", "", "")
 	caseFile := fs.String("case", "", "")
 	fs.Parse(os.Args[3:])
-	pr, ok := registry[prop]
+	pr, ok := hx.Registry[prop]
 	if !ok {
 		fmt.Fprintln(os.Stderr, "unknown property", prop)
 		os.Exit(2)
@@ -47,7 +58,7 @@ func main() {
 			fmt.Fprintln(os.Stderr, err)
 			os.Exit(2)
 		}
-		pr.run(c)
+		pr.Run(c)
 		if err := c.Finish(); err != nil {
 			fmt.Fprintln(os.Stderr, err)
 			os.Exit(2)
@@ -71,7 +82,7 @@ func main() {
 			rp.Tier = "quick"
 		}
 		c, _ := hx.NewCtx(prop, rp.Tier, rp.Seed, *out)
-		pr.replay(c, rp.Case)
+		pr.Replay(c, rp.Case)
 		c.Finish()
 		for _, f := range c.Rep.Failures {
 			fmt.Printf("FAIL %s: %s\n", f.Key, f.Detail)
